@@ -53,17 +53,3 @@ def xuntag(t, ids=None):
     if k == "l": return [xuntag(x, ids) for x in p]
     if k == "m": return {kk: xuntag(x, ids) for kk, x in p}
     return enc.untag(t, ids)
-
-
-def beyond_double(v):
-    """an int no double can hold (float(v) overflows); used to label cases, never to judge them"""
-    if isinstance(v, (tuple, list)):
-        return any(beyond_double(x) for x in v)
-    if isinstance(v, dict):
-        return any(beyond_double(x) for x in v.values())
-    if isinstance(v, int) and not isinstance(v, bool):
-        try:
-            float(v)
-        except OverflowError:
-            return True
-    return False
